@@ -161,22 +161,53 @@ def gen_cfg(rng, prob, cons=None):
 # ----------------------------------------------------------------------------- worker side
 
 
+def _exec_case(c):
+    prob = nv.Prob.from_json(c["problem"])
+    cfg = nv.Cfg(**c["cfg"])
+    if c["op"] == "solve":
+        return nv.impl_solve(prob, cfg, c.get("limit"))
+    if c["op"] == "register":
+        # later registrations must not disturb anything: re-register shipped functions (legal, appends to the registries)
+        import nucs.heuristics.heuristics as H
+        import nucs.propagators.propagators as PR
+        import nucs.solvers.consistency_algorithms as C
+
+        PR.register_propagator(PR.get_triggers_dummy, PR.get_complexity_dummy, PR.compute_domains_dummy)
+        H.register_var_heuristic(H.first_not_instantiated_var_heuristic)
+        H.register_dom_heuristic(H.min_value_dom_heuristic)
+        C.register_consistency_algorithm(C.bound_consistency_algorithm)
+        return ("ok", [], [0] * 13)
+    if c["op"] == "solve_reuse":
+        # two solvers built one after the other on the SAME problem object; the second one's run is reported
+        try:
+            p = prob.build()
+            first = cfg.solver(p)
+            n1 = 0
+            for _ in first.solve():
+                n1 += 1
+                if n1 >= 2:
+                    break  # abandoned generator
+            second = cfg.solver(p)
+            sols = [[int(x) for x in s] for s in second.solve()]
+            return ("ok", sols, nv.stats_list(second))
+        except (IndexError, OverflowError, ValueError) as e:
+            return ("err", type(e).__name__, None)
+    return nv.impl_optimize(prob, cfg, c["v"], c["minimize"])
+
+
 def worker(mode, cases_file, out_file, progress_file):
+    """runs the cases one by one; every result is appended to out_file as one JSON line as soon as it exists"""
     nv.setup_env(jit=(mode == "jit"))
     with open(cases_file) as f:
         cases = json.load(f)
-    out = []
-    for i, c in enumerate(cases):
-        with open(progress_file, "w") as pf:
-            pf.write(str(i))
-        prob = nv.Prob.from_json(c["problem"])
-        cfg = nv.Cfg(**c["cfg"])
-        if c["op"] == "solve":
-            out.append(nv.impl_solve(prob, cfg, c.get("limit")))
-        else:
-            out.append(nv.impl_optimize(prob, cfg, c["v"], c["minimize"]))
-    with open(out_file, "w") as f:
-        json.dump(out, f)
+    with open(out_file, "w") as out:
+        # a first trivial solve pays for compilation / cache loading before the per-case watchdog starts counting
+        nv.impl_solve(nv.Prob([(0, 1)]), nv.Cfg())
+        out.write(json.dumps("ready") + "\n")
+        out.flush()
+        for c in cases:
+            out.write(json.dumps(_exec_case(c)) + "\n")
+            out.flush()
 
 
 def cfg_json(cfg):
@@ -184,48 +215,88 @@ def cfg_json(cfg):
             "decision": cfg.decision, "height": cfg.height}
 
 
-def run_impl(cases, jit, timeout_per_batch=240, tag="w"):
-    """run the cases in a supervised worker; returns list of results, a hung case gives ('hang', …)"""
+MAX_HANGS = 3
+
+
+def run_impl(cases, jit, timeout_per_batch=None, tag="w", case_timeout=20):
+    """run the cases in a supervised worker process.  The parent watches the stream of results: if no new result
+    appears for `case_timeout` seconds the worker is killed, the case in progress is recorded as ('hang', …) and a new
+    worker continues with the next case.  After MAX_HANGS hangs the remaining cases are recorded as ('skipped', …):
+    non-termination is established and every further hang would only cost time."""
     os.makedirs(os.path.join(nv.VERIF, ".cache", "work"), exist_ok=True)
     base = os.path.join(nv.VERIF, ".cache", "work", f"{tag}-{os.getpid()}-{int(time.time()*1000)%100000}")
     results = [None] * len(cases)
     todo = list(range(len(cases)))
+    hangs = 0
+    startup_timeout = 600 if jit else 120
     while todo:
+        if hangs >= MAX_HANGS:
+            for i in todo:
+                results[i] = ("skipped", "after repeated hangs", None)
+            break
         with open(base + ".cases", "w") as f:
             json.dump([cases[i] for i in todo], f)
-        if os.path.exists(base + ".prog"):
-            os.remove(base + ".prog")
-        try:
-            r = subprocess.run([sys.executable, os.path.abspath(__file__), "worker", "jit" if jit else "nojit",
-                                base + ".cases", base + ".out", base + ".prog"], capture_output=True, text=True,
-                               timeout=timeout_per_batch + (150 if jit else 0))
-            if r.returncode != 0:
-                # a crash (e.g. segfault) of the real code: attribute it to the case in progress
-                k = int(open(base + ".prog").read()) if os.path.exists(base + ".prog") else 0
-                results[todo[k]] = ("crash", r.stderr[-300:], None)
-                # the cases before k are lost with the process: re-run them separately
-                before, after = todo[:k], todo[k + 1:]
-                for grp in (before,):
-                    if grp:
-                        sub = run_impl([cases[i] for i in grp], jit, timeout_per_batch, tag)
-                        for i, rr in zip(grp, sub):
-                            results[i] = rr
-                todo = after
+        open(base + ".out", "w").close()
+        proc = subprocess.Popen([sys.executable, os.path.abspath(__file__), "worker", "jit" if jit else "nojit",
+                                 base + ".cases", base + ".out", base + ".prog"], stdout=subprocess.DEVNULL, stderr=subprocess.PIPE)
+        got, ready, last = 0, False, time.time()
+        fh = open(base + ".out")
+        status = None
+        buf = ""
+
+        def consume(lines):
+            nonlocal got, ready
+            for ln in lines:
+                if not ready:
+                    ready = True
+                    continue
+                if got < len(todo):
+                    results[todo[got]] = tuple(json.loads(ln))
+                    got += 1
+
+        while True:
+            chunk = fh.read()
+            if chunk:
+                buf += chunk
+                parts = buf.split("\n")
+                buf = parts.pop()  # incomplete tail (or "")
+                if parts:
+                    last = time.time()
+                    consume(parts)
+                if got == len(todo):
+                    status = "done"
+                    break
                 continue
-            with open(base + ".out") as f:
-                out = json.load(f)
-            for i, rr in zip(todo, out):
-                results[i] = tuple(rr)
+            if proc.poll() is not None:
+                buf += fh.read()
+                consume([ln for ln in buf.split("\n") if ln.strip()])
+                status = "done" if got == len(todo) else "crash"
+                break
+            if time.time() - last > (case_timeout if ready else startup_timeout):
+                status = "hang"
+                break
+            time.sleep(0.02)
+        fh.close()
+        if status == "done":
+            proc.wait()
             todo = []
-        except subprocess.TimeoutExpired:
-            k = int(open(base + ".prog").read()) if os.path.exists(base + ".prog") else 0
-            results[todo[k]] = ("hang", f"no answer within the watchdog ({timeout_per_batch}s for the batch)", None)
-            before, after = todo[:k], todo[k + 1:]
-            if before:
-                sub = run_impl([cases[i] for i in before], jit, timeout_per_batch, tag)
-                for i, rr in zip(before, sub):
-                    results[i] = rr
-            todo = after
+        elif status == "hang":
+            proc.kill()
+            proc.wait()
+            hangs += 1
+            if got < len(todo):
+                results[todo[got]] = ("hang", f"no answer within the watchdog ({case_timeout}s for this case)", None)
+                todo = todo[got + 1:]
+            else:
+                todo = []
+        else:
+            err = proc.stderr.read().decode()[-300:] if proc.stderr else ""
+            proc.wait()
+            if got < len(todo):
+                results[todo[got]] = ("crash", f"worker exited with {proc.returncode}: {err}", None)
+                todo = todo[got + 1:]
+            else:
+                todo = []
     for ext in (".cases", ".out", ".prog"):
         if os.path.exists(base + ext):
             os.remove(base + ext)
@@ -237,7 +308,10 @@ def model_lines(cases):
     for c in cases:
         prob = nv.Prob.from_json(c["problem"])
         cfg = nv.Cfg(**c["cfg"])
-        if c["op"] == "solve":
+        if c["op"] == "register":
+            lines.append("split 0:0 0:0 1 0")
+            continue
+        if c["op"] in ("solve", "solve_reuse"):
             lim = c.get("limit")
             lines.append(f"solve {prob.enc()} {cfg.enc(prob)} {lim if lim is not None else 1000000}")
         else:
@@ -248,7 +322,9 @@ def model_lines(cases):
 def impl_line(c, res):
     kind = res[0]
     if kind == "ok":
-        if c["op"] == "solve":
+        if c["op"] == "register":
+            return "0:0"
+        if c["op"] in ("solve", "solve_reuse"):
             sols = ";".join(nv.enc_ints(s) for s in res[1]) if res[1] else "-"
             return f"{sols} {nv.enc_ints(res[2])}"
         return f"{'none' if res[1] is None else nv.enc_ints(res[1])} {nv.enc_ints(res[2])}"
